@@ -300,6 +300,10 @@ fn report_equal_slice(leaf: &mut Leaf, tag: &str, all: &TaxReport, one: &TaxRepo
 }
 
 pub fn c07(sk: &Skeleton) -> Leaf {
+    #[cfg(feature = "mcp")]
+    if sk.opt_str("variant").as_deref() == Some("mcp") {
+        return super::mcp::c07_mcp(sk);
+    }
     let mode = Mode::parse(&sk.opt_str("mode").unwrap_or_else(|| "QPF".into()));
     let lines = ledger::instantiate(sk, "lines", &mode);
     let txs = ledger::to_transactions(&lines);
